@@ -217,7 +217,14 @@ func (w *World) Method(pkgSuffix, typeName, method string) *ssa.Function {
 		return fn
 	}
 	// the pinned name may live on under another name (canon.go)
-	return w.canonByName["("+pkgSuffix+"."+typeName+")."+method]
+	if fn := w.canonByName["("+pkgSuffix+"."+typeName+")."+method]; fn != nil {
+		return fn
+	}
+	// a private helper may move between a keeper and the message server that embeds it
+	if typeName == "Keeper" {
+		return w.method(pkgSuffix, "MsgServer", method)
+	}
+	return nil
 }
 
 func (w *World) method(pkgSuffix, typeName, method string) *ssa.Function {
